@@ -54,6 +54,8 @@ theorem readLookup_clean {se : SEnv} (he : EnvOk se.env) (p : Prim) (hp : p.plai
     | prim q => cases q <;> first | exact clean_ok _ | exact clean_err _ rfl
     | stream i d =>
       simp only []
+      split
+      · exact clean_ok _
       cases hu : unitStreamData i d with
       | ok x => exact clean_ok _
       | error e =>
